@@ -161,6 +161,17 @@ def is_seq(x):
     return isinstance(x, (list, tuple, range, _array.array))
 
 
+def array_tc(x):
+    """element type of an array.array ('d'/'f' -> real, integer codes -> integer)"""
+    if isinstance(x, _array.array):
+        if x.typecode in "df":
+            return "d"
+        if x.typecode in "bBhHiIlLqQ":
+            return "i"
+        raise UNSPECIFIED("array of typecode %r" % x.typecode)
+    return None
+
+
 # ---------------------------------------------------------------------------
 # the reference matrix
 # ---------------------------------------------------------------------------
@@ -174,6 +185,8 @@ class Ref(object):
         self.alt = None         # alternative value list where the manual leaves a convention open
         self.free = ()          # subset of ('tc', 'kind'): attribute not fixed by the manual
         self.pat = None         # sparsity pattern [(i, j)] copied from the real object (sparse only)
+        self.patdoc = False     # True: .pat is what the manual documents for this result -> compared
+        self.mask = None        # list of bool: positions whose value the documentation defines
 
     # -- basic -------------------------------------------------------------
     @property
@@ -202,6 +215,46 @@ class Ref(object):
 
     def at(self, i, j):
         return self.v[i + j * self.m]
+
+    # -- sparse attributes V, I, J ("a copy is returned, as a new dense matrix") ----------------
+    def _need_pat(self, what):
+        if not self.sp:
+            raise RAISES(frozenset([AttributeError]), "dense matrices have no attribute %s" % what)
+        if self.pat is None:
+            raise UNSPECIFIED("%s needs the pattern" % what)
+
+    @property
+    def V(self):
+        self._need_pat("V")
+        return Ref(self.tc, len(self.pat), 1, self.stored())
+
+    @V.setter
+    def V(self, val):
+        self._need_pat("V")
+        if not isinstance(val, Ref) or val.sp:
+            raise UNSPECIFIED("V assigned something that is not a dense matrix")
+        if val.tc != self.tc:
+            if ORDER[val.tc] > ORDER[self.tc]:
+                raise RAISES(E_TYPE, "V assignment may not change the type")
+            raise UNSPECIFIED("V assigned a matrix of a lower type")
+        if val.m * val.n != len(self.pat):
+            raise RAISES(E_TYPE | E_INDEX, "V must have one value per stored entry")
+        if val.n != 1 and val.m * val.n > 0:
+            raise UNSPECIFIED("V assigned a matrix that is not a single column")
+        if len(set(self.pat)) != len(self.pat):
+            raise UNSPECIFIED("pattern with repeated positions")
+        for (i, j), x in zip(self.pat, val.v):
+            self.v[i + j * self.m] = x
+
+    @property
+    def I(self):
+        self._need_pat("I")
+        return Ref("i", len(self.pat), 1, [i for (i, j) in self.pat])
+
+    @property
+    def J(self):
+        self._need_pat("J")
+        return Ref("i", len(self.pat), 1, [j for (i, j) in self.pat])
 
     def is_scalar(self):
         """'a scalar (a Python number or a dense 1 by 1 matrix)'"""
@@ -358,6 +411,8 @@ class Ref(object):
             return ("mat", val)
         if is_seq(val):
             seq = list(val)
+            if not seq and array_tc(val) is not None and ORDER[array_tc(val)] > ORDER[self.tc]:
+                raise UNSPECIFIED("empty typed array of a higher type on the right")
             for x in seq:
                 if isinstance(x, bool):
                     raise UNSPECIFIED("bool in sequence")
@@ -372,6 +427,8 @@ class Ref(object):
     def __setitem__(self, key, val):
         # right-hand side: "a scalar (i.e., a number or a 1 by 1 dense matrix), a sequence of
         # numbers, or a dense or sparse matrix"
+        if key is self or (isinstance(key, tuple) and any(k is self for k in key)):
+            raise UNSPECIFIED("the assigned matrix is its own index")
         (scalar, pos, (r, c)), (kind, rhs) = all_of(lambda: self._resolve(key), lambda: self._rhs_class(val))
         cnt = r * c
         if kind == "num":
@@ -383,6 +440,8 @@ class Ref(object):
                 if (rhs.m, rhs.n) != (r, c):
                     if rhs.sp and rhs.m * rhs.n == 1:
                         raise UNSPECIFIED("1x1 sparse right-hand side for a larger block")
+                    if rhs.m * rhs.n == 0 and cnt == 0:
+                        raise UNSPECIFIED("empty right-hand side of another shape for an empty block")
                     raise RAISES(E_TYPE | E_INDEX, "right-hand side %dx%d for a %dx%d block" % (rhs.m, rhs.n, r, c))
                 new = [conv(x, self.tc) for x in rhs.v]
         else:
@@ -617,12 +676,16 @@ class Ref(object):
         return self._div(o)
 
     def __rtruediv__(self, o):
+        if self.m * self.n == 1:
+            raise UNSPECIFIED("number / 1x1 matrix")
         raise RAISES(E_NOTDEF, "number / matrix is not defined")
 
     def __mod__(self, o):
         return self._rem(o)
 
     def __rmod__(self, o):
+        if self.m * self.n == 1:
+            raise UNSPECIFIED("number % 1x1 matrix")
         raise RAISES(E_NOTDEF, "number % matrix is not defined")
 
     def __floordiv__(self, o):
@@ -664,11 +727,21 @@ class Ref(object):
             raise RAISES(E_NOTDEF, "matrix *= %s" % type(o).__name__)
         return self._inplace(Ref._scalmul(self, o, num_tc(o), self.sp), "multiplication")
 
+    def _inplace_tc(self, o, floor_tc, what):
+        def chk():
+            cv, ctc = self._scalar_of(o, what)
+            t = maxtc(floor_tc, self.tc, ctc)
+            if t != self.tc:
+                raise RAISES(E_TYPE, "in-place %s would change the typecode %s -> %s" % (what, self.tc, t))
+        return chk
+
     def __itruediv__(self, o):
-        return self._inplace(self._div(o), "division")
+        res = all_of(self._inplace_tc(o, "d", "division"), lambda: self._div(o))[1]
+        return self._inplace(res, "division")
 
     def __imod__(self, o):
-        return self._inplace(self._rem(o), "remainder")
+        res = all_of(self._inplace_tc(o, "i", "remainder"), lambda: self._rem(o))[1]
+        return self._inplace(res, "remainder")
 
     def __ipow__(self, o):
         raise UNSPECIFIED("**= is not in the table of in-place operations")
@@ -811,11 +884,16 @@ def _matrix(x, size, tc):
             t = "i"
             for e in vals:
                 t = maxtc(t, num_tc(e))
+        elif not vals and array_tc(x) is not None and ORDER[array_tc(x)] > ORDER[t]:
+            raise UNSPECIFIED("empty typed array of a higher type than tc")
         v = [conv(e, t) for e in vals]
         m, n = size if size is not None else (len(v), 1)
         if m * n != len(v):
             raise RAISES(E_TYPE, "size does not match the length of the sequence")
-        return Ref(t, m, n, v)
+        r = Ref(t, m, n, v)
+        if not vals and tc is None and array_tc(x) is not None:
+            r.free = ("tc",)        # typed but empty: "if that is impossible ... 'i' is used" or the array's type
+        return r
     raise RAISES(E_TYPE, "x of type %s" % type(x).__name__)
 
 
@@ -885,6 +963,7 @@ def spmatrix(x, I, J, size=None, tc=None):
     if len(pat) != len(Il):
         r.scale = sc
     r.pat = sorted(pat, key=lambda p: (p[1], p[0]))
+    r.patdoc = True
     return r
 
 
@@ -902,6 +981,7 @@ def sparse(x, tc=None):
     else:
         raise UNSPECIFIED("sparse() of %s" % type(x).__name__)
     r.pat = [(i, j) for j in range(r.n) for i in range(r.m) if r.v[i + j * r.m] != 0]
+    r.patdoc = True
     return r
 
 
@@ -1036,6 +1116,8 @@ def log(A):
 def _nary_args(args, name):
     if len(args) == 1 and isinstance(args[0], (list, tuple, range)):
         args = tuple(args[0])
+        if len(args) == 1:
+            raise UNSPECIFIED("%s of an iterable with one element" % name)
     if not args:
         raise UNSPECIFIED("%s without arguments" % name)
     for a in args:
@@ -1207,6 +1289,16 @@ def _op(A, trans):
     raise RAISES(E_TYPE, "trans=%r" % (trans,))
 
 
+def _partial(C, new, partial):
+    """'If C is sparse and partial is True, then only the nonzero elements of C are updated'"""
+    if partial and C.sp:
+        if C.pat is None:
+            raise UNSPECIFIED("partial update needs the pattern")
+        keep = set(i + j * C.m for (i, j) in C.pat)
+        return [x if k in keep else c for k, (x, c) in enumerate(zip(new, C.v))]
+    return new
+
+
 def base_axpy(x, y, alpha=None, partial=None):
     """y := alpha*x + y"""
     tc = _need_dz(x, y)
@@ -1219,7 +1311,9 @@ def base_axpy(x, y, alpha=None, partial=None):
     new = [a * xv + yv for xv, yv in zip(x.v, y.v)]
     sc = [abs(a * xv) + abs(yv) for xv, yv in zip(x.v, y.v)]
     _guard(new, tc)
-    y.v = new
+    if x is y:
+        raise UNSPECIFIED("x and y are the same object")
+    y.v = _partial(y, new, partial)
     y.scale = sc
     return None
 
@@ -1243,7 +1337,9 @@ def base_gemm(A, B, C, transA="N", transB="N", alpha=None, beta=None, partial=No
     new = [a * p + (b * c if b != 0 else _zero(tc)) for p, c in zip(P.v, C.v)]
     sc = [abs(a) * s + abs(b * c) for s, c in zip(P.scale, C.v)]
     _guard(new, tc)
-    C.v = new
+    if C is A or C is B:
+        raise UNSPECIFIED("C is one of the factors")
+    C.v = _partial(C, new, partial)
     C.scale = sc
     return None
 
@@ -1280,9 +1376,12 @@ def base_syrk(A, C, uplo="L", trans="N", alpha=None, beta=None, partial=None):
                 sc[k] = abs(a) * P.scale[k] + abs(b * C.v[k])
                 mask[k] = True
     _guard([x for x, mk in zip(new, mask) if mk], tc)
-    C.v = new
+    if C is A:
+        raise UNSPECIFIED("C is A")
+    C.v = _partial(C, new, partial)
     C.scale = sc
-    return mask
+    C.mask = mask
+    return None
 
 
 def base_gemv(A, x, y, trans="N", alpha=None, beta=None, m=None, n=None, incx=1, incy=1,
@@ -1455,15 +1554,17 @@ def snapshot(obj):
 RTOL = 1e-14
 
 
-def value_mismatch(tc, got, want, scale, rtol=RTOL):
+def value_mismatch(tc, got, want, scale, rtol=RTOL, mask=None):
     """-> (index, got, want, err/scale) of the first mismatching element, or None; and the
     largest err/scale seen (for calibration)"""
     worst = 0.0
     bad = None
     for k, (g, w) in enumerate(zip(got, want)):
+        if mask is not None and not mask[k]:
+            continue
         if type(g) is not type(w):
             return (k, g, w, float("inf")), float("inf")
-        if g == w:
+        if g == w or same_nan(g, w):
             continue
         if tc == "i" or scale is None:
             return (k, g, w, float("inf")), float("inf")
@@ -1477,6 +1578,16 @@ def value_mismatch(tc, got, want, scale, rtol=RTOL):
         if rel > rtol and bad is None:
             bad = (k, g, w, rel)
     return bad, worst
+
+
+def same_nan(g, w):
+    """values the model merely copied from the library (after an unjudged step) may be nan"""
+    if isinstance(g, float):
+        return g != g and w != w
+    if isinstance(g, complex):
+        return (g.real == w.real or (g.real != g.real and w.real != w.real)) and \
+               (g.imag == w.imag or (g.imag != g.imag and w.imag != w.imag))
+    return False
 
 
 def num_equal(got, want, tol=None):
@@ -1493,6 +1604,20 @@ def num_equal(got, want, tol=None):
 # ---------------------------------------------------------------------------
 # lock-step execution of one program on cvxopt and on the model
 # ---------------------------------------------------------------------------
+def _make_probe():
+    """PyErr_Occurred() through ctypes.pythonapi: ctypes re-raises an error indicator that a C
+    function left set while reporting success (specialised CALL bytecodes do not check it)."""
+    import ctypes
+    f = ctypes.pythonapi.PyErr_Occurred
+    f.restype = ctypes.c_void_p
+    f.argtypes = []
+    return f
+
+
+_PROBE = _make_probe()
+_NOARGS = ()
+
+
 class Lockstep(object):
     """Two namespaces with the same variable names: `real` (cvxopt objects) and `ref` (Ref
     objects).  step() executes one source line in both and compares outcome, every live
@@ -1551,6 +1676,14 @@ class Lockstep(object):
             return False
         if o is None:
             return True
+        if not isinstance(r, Ref):
+            c.check()
+            ok = kind_of(o) is None and self._same_python_value(o, r)
+            self.real.pop(name, None)
+            self.ref.pop(name, None)
+            if not ok:
+                self.fail("%s:python-result" % label, "%s = %r, model %r" % (name, o, r))
+            return ok
         k = kind_of(o)
         if k is None:
             self.fail("%s:result-type" % label,
@@ -1585,9 +1718,15 @@ class Lockstep(object):
                       got=o, want=r.v)
             return False
         snap = snapshot(o)
-        bad, worst = value_mismatch(r.tc, snap.v, r.v, r.scale)
+        if r.sp and r.patdoc and r.pat is not None:
+            c.check()
+            if sorted(snap.pat) != sorted(r.pat):
+                self.fail("%s:pattern" % label, "%s stores the entries %s, documented triplet description: %s" %
+                          (name, sorted(snap.pat), sorted(r.pat)))
+                return False
+        bad, worst = value_mismatch(r.tc, snap.v, r.v, r.scale, mask=r.mask)
         if bad is not None and r.alt is not None:
-            bad2, worst2 = value_mismatch(r.tc, snap.v, r.alt, r.scale)
+            bad2, worst2 = value_mismatch(r.tc, snap.v, r.alt, r.scale, mask=r.mask)
             if bad2 is None:
                 bad, worst = None, worst2
                 self.ctx.count("unspec.alternative-convention-taken")
@@ -1602,7 +1741,7 @@ class Lockstep(object):
             return False
         if adopt:
             r.v, r.scale, r.alt, r.free = snap.v, None, None, ()
-            r.pat = snap.pat
+            r.pat, r.patdoc, r.mask = snap.pat, False, None
         return True
 
     def compare_all(self, label):
@@ -1658,10 +1797,16 @@ class Lockstep(object):
                     self.ref[n] = b
         exc = None
         if self.progress is not None:
-            self.progress(label)
+            self.progress((label, src))
         try:
             exec(code, self.real)
-            len(())     # a C call: surfaces an error indicator the library left set while returning normally
+            pending = None
+            try:
+                _PROBE(*_NOARGS)
+            except BaseException as pe:     # noqa: the library returned normally with an error set
+                pending = pe
+            if pending is not None:
+                raise SystemError("returned a result with an exception set (%s: %s)" % (type(pending).__name__, pending))
         except Exception as e:          # noqa: judged below
             exc = e
         ctx.count("%s.op.%s" % (self.prefix, label))
@@ -1721,7 +1866,7 @@ class Lockstep(object):
         if isinstance(w, (int, float, complex)):
             if type(g) is not type(w):
                 return False
-            if g == w:
+            if g == w or same_nan(g, w):
                 return True
             return abs(g - w) <= 1e-13 * max(1.0, abs(w))
         return g == w
@@ -1762,7 +1907,7 @@ def run_forked(c, ctx, fn):
         finally:
             os._exit(code)
     os.close(wfd)
-    last, payload, buf = None, None, b""
+    last, payload, buf, prog = None, None, b"", []
     try:
         while True:
             chunk = os.read(rfd, 65536)
@@ -1776,7 +1921,11 @@ def run_forked(c, ctx, fn):
                 kind, obj = pickle.loads(buf[4:4 + ln])
                 buf = buf[4 + ln:]
                 if kind == "step":
-                    last = obj
+                    if isinstance(obj, tuple):
+                        last = obj[0]
+                        prog.append(obj[1])
+                    else:
+                        last = obj
                 else:
                     payload = obj
     except BaseException:
@@ -1794,7 +1943,9 @@ def run_forked(c, ctx, fn):
         c.check()
         c.fail("crash:%s" % (last or "before-first-step"),
                "interpreter died (%s) while/after executing a step of class %r" %
-               ("signal %d" % sig if sig else "exit status %d" % os.WEXITSTATUS(status), last))
+               ("signal %d" % sig if sig else "exit status %d" % os.WEXITSTATUS(status), last) +
+               "\nprogram:\n  " + "\n  ".join(prog))
+        c.desc["program"] = prog
         return
     c.failed.extend(payload["failed"])
     c.checked += payload["checked"]
@@ -1828,6 +1979,103 @@ def ref_namespace():
             "bmax": bmax, "bmin": bmin, "bsum": bsum,
             "axpy": base_axpy, "gemv": base_gemv, "gemm": base_gemm, "syrk": base_syrk,
             "symv": base_symv}
+
+
+# ---------------------------------------------------------------------------
+# generators shared by the program-based checks (literals and index expressions as source text)
+# ---------------------------------------------------------------------------
+def rnum(rng, tc):
+    if tc == "i":
+        return rng.choice([0, 0, 1, -1, 2, 3, -3, 5, -7, 9, rng.randint(-9, 9)])
+    if tc == "d":
+        if rng.random() < 0.7:
+            return rng.randint(-20, 20) / 4.0
+        return round(rng.uniform(-5, 5), 3)
+    return complex(rng.randint(-8, 8) / 2.0, rng.randint(-8, 8) / 2.0)
+
+def rtc(rng):
+    return rng.choice("iiddz")
+
+def rdim(rng):
+    return rng.choice([0, 1, 1, 2, 2, 2, 3, 3, 4])
+
+def vals_src(vals):
+    return "[" + ", ".join(repr(v) for v in vals) + "]"
+
+def lit(rng, tc, m, n):
+    vals = [rnum(rng, tc) for _ in range(m * n)]
+    return "matrix(%s, (%d,%d), '%s')" % (vals_src(vals), m, n, tc)
+
+def divisors(k):
+    return [d for d in range(1, k + 1) if k % d == 0]
+
+INDEX_KINDS = ["int", "int", "negint", "int-oor", "slice", "slice", "list", "list-neg", "list-oor",
+               "list-empty", "imat", "imat-neg", "imat-oor", "imat-empty", "imat-2d", "bad-dmat", "bad-float",
+               "bad-none", "bad-str", "pool-imat"]
+
+def index_src(rng, dim, ls):
+    """-> (kind, source, is_scalar)"""
+    kind = rng.choice(INDEX_KINDS)
+    if dim == 0 and kind in ("int", "negint", "list", "list-neg", "imat", "imat-neg", "imat-2d"):
+        kind = rng.choice(["int-oor", "slice", "list-empty", "list-oor", "imat-empty"])
+    if kind == "int":
+        return kind, str(rng.randrange(dim)), True
+    if kind == "negint":
+        return kind, str(-rng.randint(1, dim)), True
+    if kind == "int-oor":
+        return kind, str(rng.choice([dim, dim + 1, -dim - 1, -dim - 2, 99, -99])), True
+    if kind == "slice":
+        def f():
+            return rng.choice(["", "", str(rng.randint(-dim - 2, dim + 2))])
+        step = rng.choice(["", "", "", ":2", ":-1", ":-2", ":3", ":1"])
+        return kind, "%s:%s%s" % (f(), f(), step), False
+    if kind == "list":
+        return kind, str([rng.randrange(dim) for _ in range(rng.randint(1, 4))]), False
+    if kind == "list-neg":
+        l = [rng.randint(-dim, dim - 1) for _ in range(rng.randint(1, 4))]
+        l[rng.randrange(len(l))] = -rng.randint(1, dim)
+        return kind, str(l), False
+    if kind == "list-oor":
+        l = [rng.randint(-dim, dim - 1) if dim else 0 for _ in range(rng.randint(1, 3))]
+        l[rng.randrange(len(l))] = rng.choice([dim, -dim - 1, dim + 3, 50])
+        return kind, str(l), False
+    if kind == "list-empty":
+        return kind, "[]", False
+    if kind == "imat":
+        return kind, "matrix(%s)" % [rng.randrange(dim) for _ in range(rng.randint(1, 4))], False
+    if kind == "imat-neg":
+        l = [rng.randint(-dim, dim - 1) for _ in range(rng.randint(1, 4))]
+        l[rng.randrange(len(l))] = -rng.randint(1, dim)
+        return kind, "matrix(%s)" % l, False
+    if kind == "imat-2d":
+        return kind, "matrix(%s, (2,2))" % [rng.randint(-dim, dim - 1) for _ in range(4)], False
+    if kind == "imat-oor":
+        l = [rng.randint(-dim, dim - 1) if dim else 0 for _ in range(rng.randint(1, 3))]
+        l[rng.randrange(len(l))] = rng.choice([dim, -dim - 1, dim + 3, 50])
+        return kind, "matrix(%s)" % l, False
+    if kind == "imat-empty":
+        return kind, "matrix([], (0,1), 'i')", False
+    if kind == "bad-dmat":
+        return kind, "matrix([0.0])", False
+    if kind == "bad-float":
+        return kind, "0.0", True
+    if kind == "bad-none":
+        return kind, "None", True
+    if kind == "bad-str":
+        return kind, "'a'", True
+    # pool-imat: an integer pool matrix used as index list (values are whatever they are)
+    cands = [n for n in ls.live() if ls.ref[n].tc == "i"]
+    if not cands:
+        return "list-empty", "[]", False
+    return kind, rng.choice(cands), False
+
+PRIORITY = ["pool-imat", "imat-2d", "imat-neg", "imat-oor", "imat-empty", "imat", "list-neg", "list-oor",
+            "list-empty", "list", "negint", "int-oor", "bad-dmat", "bad-float", "bad-none", "bad-str", "slice", "int"]
+
+def primary(k1, k2):
+    """the less trivial of two index kinds (keys stay few and name the mechanism)"""
+    return min((k1, k2), key=PRIORITY.index)
+
 
 
 # ---------------------------------------------------------------------------
